@@ -5,6 +5,8 @@ import AscaVerif.Model.Alias
 import AscaVerif.Model.CliFiles
 import AscaVerif.Model.Config
 import AscaVerif.Model.Interp.Apply
+import AscaVerif.Model.Lexer
+import AscaVerif.Model.Parser
 /-! Line-protocol driver for the model (compiled `lean_exe`; imports the model only — core Lean). -/
 open Asca
 
@@ -424,6 +426,63 @@ def showPlan (files : List (List Text)) (conf : List Cfg.Seq) : String :=
       | .ok idx => s!"r{e.file}:" ++ ",".intercalate (idx.map toString)
       | .error m => s!"r{e.file}:error"))
 
+/-! the parsed rule as the flat token stream of the `parse_rule_ast` hook (verif.rs) -/
+def mkTok : Option ModKind → String
+  | none => "0"
+  | some (.bin .pos) => "+"
+  | some (.bin .neg) => "-"
+  | some (.alpha (.alpha c)) => s!"a{c}"
+  | some (.alpha (.inv c)) => s!"i{c}"
+def optTok : Option Nat → String | some n => toString n | none => "-"
+def modsToks (m : Modifiers) : List String :=
+  m.nodes.map mkTok ++ m.feats.map mkTok ++ [mkTok m.suprs.stress, mkTok m.suprs.secStress, mkTok m.suprs.long, mkTok m.suprs.overlong, optTok m.suprs.tone]
+def optModsToks : Option Modifiers → List String | none => ["0"] | some m => "1" :: modsToks m
+
+mutual
+partial def itemToks : Parse.PItem → List String
+  | .mk k _ =>
+    match k with
+    | .emptySet => ["E"] | .wordBound => ["W"] | .syllBound => ["B"] | .ellipsis => ["L"] | .metathesis => ["M"]
+    | .set items => "S" :: itemsToks items
+    | .ipa sg m => ["I", toString sg.root.toNat, toString sg.manner.toNat, toString sg.laryngeal.toNat,
+        (match sg.place with | some p => toString p.toNat | none => "-")] ++ optModsToks m
+    | .matrix m v => "X" :: modsToks m ++ [optTok v]
+    | .syllable st sec t v => ["Y", mkTok st, mkTok sec, optTok t, optTok v]
+    | .struct items st sec t v => "T" :: itemsToks items ++ [mkTok st, mkTok sec, optTok t, optTok v]
+    | .optional items lo hi => "O" :: itemsToks items ++ [toString lo, toString hi]
+    | .environment envs => "V" :: toString envs.length :: envs.flatMap (fun e => match e with | .mk b a _ => itemsToks b ++ itemsToks a)
+    | .variable t m => ["N", Lex.toStr t.value] ++ optModsToks m
+partial def itemsToks (items : List Parse.PItem) : List String := toString items.length :: items.flatMap itemToks
+end
+
+def ruleToks (r : Parse.PRule) : List String :=
+  toString r.input.length :: r.input.flatMap itemsToks ++ toString r.output.length :: r.output.flatMap itemsToks ++
+  itemsToks r.context ++ itemsToks r.except
+
+def showParse : Parse.PRes (Option Parse.PRule) → String
+  | .ok none => "none"
+  | .ok (some r) => "ok " ++ " ".intercalate (ruleToks r)
+  | .err e => s!"err {e.name} " ++ " ".intercalate (e.spans.map fun (a, b) => s!"{a} {b}")
+  | .panic _ => "panic"
+  | .outOfFuel _ => "hang"
+
+/-- `TokenKind` as its `Debug` text -/
+def tkName : Lex.TK → String
+  | .leftSquare => "LeftSquare" | .rightSquare => "RightSquare" | .leftCurly => "LeftCurly" | .rightCurly => "RightCurly"
+  | .rightAngle => "RightAngle" | .leftAngle => "LeftAngle" | .leftBracket => "LeftBracket" | .rightBracket => "RightBracket"
+  | .leftColCurly => "LeftColCurly" | .rightColCurly => "RightColCurly" | .greaterThan => "GreaterThan" | .equals => "Equals"
+  | .underline => "Underline" | .arrow => "Arrow" | .comma => "Comma" | .colon => "Colon" | .wordBoundary => "WordBoundary"
+  | .syllBoundary => "SyllBoundary" | .syllable => "Syllable" | .ampersand => "Ampersand" | .group => "Group" | .number => "Number"
+  | .slash => "Slash" | .dubSlash => "DubSlash" | .pipe => "Pipe" | .cardinal => "Cardinal" | .diacritic i => s!"Diacritic({i})"
+  | .star => "Star" | .emptySet => "EmptySet" | .ellipsis => "Ellipsis" | .comment => "Comment"
+  | .feature k v => s!"Feature({k}({v}))" | .eol => "Eol"
+
+def showLex : Lex.LRes (List Lex.Token) → String
+  | .ok ts => "ok " ++ ";".intercalate (ts.map fun t => s!"{tkName t.kind}|{".".intercalate (t.value.map toString)}|{t.start}|{t.stop}")
+  | .err e => s!"err {e.name} {e.start} {e.stop}"
+  | .panic _ => "panic"
+  | .outOfFuel _ => "hang"
+
 def handleOp (st : DState) (line : String) : DState × String :=
   let ts := (line.splitOn " ").filter (· != "")
   match ts with
@@ -479,6 +538,14 @@ def handleOp (st : DState) (line : String) : DState × String :=
     | none => (st, "bad-op")
   | "apply" :: rest => (st, opApply false rest)
   | "applyv" :: rest => (st, opApply true rest)
+  | "lex" :: cps =>
+    match (cps.filter (· != "")).mapM String.toNat? with
+    | some t => (st, showLex (Lex.lexLine t))
+    | none => (st, "bad-op")
+  | "parse" :: cps =>
+    match (cps.filter (· != "")).mapM String.toNat? with
+    | some t => (st, showParse (Parse.parseLine t))
+    | none => (st, "bad-op")
   | "parsew" :: cps =>
     match cps.mapM String.toNat? with
     | some t => (st, showRes showWord (ParseWord.parseInput t))
